@@ -4,6 +4,7 @@ CONSTANTS
   Ufuncs <- ChainUfuncs
   Methods <- AllMethods
   DKinds <- Q_DKinds
+  OutRK <- C_OutRK
   AsDtypes <- Q_AsDtypes
   MaxDepth = 3
   FreeDepth = 0
